@@ -380,6 +380,26 @@ func literalCtx(v ssa.Value) ctxDesc {
 						return ctxDescOf(st.Val)
 					}
 				}
+				// nested literal: cfgPrimitive{ctx: context{parent: p, field: f}} stores into the fields of ctx in place
+				d := ctxDesc{how: "literal"}
+				for _, r2 := range *fa.Referrers() {
+					if fa2, ok := r2.(*ssa.FieldAddr); ok {
+						_, f2, _ := FieldOf(fa2)
+						for _, r3 := range *fa2.Referrers() {
+							if st, ok := r3.(*ssa.Store); ok && st.Addr == ssa.Value(fa2) {
+								switch f2 {
+								case "parent":
+									d.parent, d.ok = st.Val, true
+								case "field":
+									d.field, d.ok = st.Val, true
+								}
+							}
+						}
+					}
+				}
+				if d.ok {
+					return d
+				}
 			}
 			if f == "cfgPrimitive" {
 				if d := walk(fa); d.ok {
